@@ -24,6 +24,21 @@ mutual
     | d :: ds => nfD d && nfL ds
 end
 
+/-! ### Values without any placeholder -/
+
+mutual
+  /-- No placeholder at all (`pg.is_deterministic`). -/
+  def plainT : Tmpl → Bool
+    | .const _ => true
+    | .node _ kids => plainL kids
+    | .choice _ _ _ _ _ _ => false
+    | .floatv _ _ _ => false
+    | .custom _ _ => false
+  def plainL : List Tmpl → Bool
+    | [] => true
+    | t :: ts => plainT t && plainL ts
+end
+
 /-! ### Python equality of values -/
 
 mutual
@@ -46,6 +61,10 @@ mutual
       match v with
       | .floatv tag' lo' hi' => decide (tag = tag' ∧ lo = lo' ∧ hi = hi')
       | _ => false
+    | .custom tag cid, v =>
+      match v with
+      | .custom tag' cid' => decide (tag = tag' ∧ cid = cid')
+      | _ => false
   def eqvL : List Tmpl → List Tmpl → Bool
     | [], vs => vs.isEmpty
     | t :: ts, vs =>
@@ -55,7 +74,7 @@ mutual
 end
 
 section
-variable (W : Nat → Bool)
+variable (W : Cfg)
 
 /-! ### Well-formed templates (what the constructors of `OneOf` / `ManyOf` enforce) -/
 
@@ -66,6 +85,7 @@ mutual
     | .node _ kids => wfL kids
     | .choice _ one k cands _ _ => (if one then decide (k = 1) else decide (1 ≤ k)) && wfL cands
     | .floatv _ _ _ => true
+    | .custom _ _ => true
   def wfL : List Tmpl → Bool
     | [] => true
     | t :: ts => wfT t && wfL ts
@@ -81,6 +101,7 @@ mutual
     | .node _ kids => detL kids
     | .choice tag _ _ cands _ _ => !W tag && detL cands
     | .floatv tag _ _ => !W tag
+    | .custom tag _ => !W tag
   def detL : List Tmpl → Bool
     | [] => true
     | t :: ts => detT t && detL ts
@@ -122,6 +143,13 @@ mutual
         match v with
         | .floatv tag' lo' hi' => decide (tag = tag' ∧ lo = lo' ∧ hi = hi')
         | _ => false
+    | .custom tag cid, v =>
+      -- a selected custom placeholder is replaced by an opaque value without placeholders
+      if W tag then plainT v
+      else
+        match v with
+        | .custom tag' cid' => decide (tag = tag' ∧ cid = cid')
+        | _ => false
   def shapeL : List Tmpl → List Tmpl → Bool
     | [], vs => vs.isEmpty
     | t :: ts, vs =>
@@ -132,6 +160,24 @@ mutual
     | [], _ => false
     | c :: cs, v => shapeT c v || anyShape cs v
 end
+
+/-! ### The contract of the user hooks of custom hyper primitives (an explicit hypothesis) -/
+
+/-- On the genomes the hooks call their own (`W.dom`): `custom_decode` succeeds, returns a value
+without placeholders, and `custom_encode` maps that value back to the same DNA
+("decode ∘ encode = id on their own range"). -/
+def HooksLawful : Prop :=
+  ∀ cid d, W.dom cid d = true →
+    ∃ v, W.dec cid d = some v ∧ plainT v = true ∧ W.enc cid v = some d
+
+/-- Whatever `custom_decode` returns (also outside `dom`) contains no placeholder. -/
+def HooksPlain : Prop := ∀ cid d v, W.dec cid d = some v → plainT v = true
+
+/-- What `custom_encode` returns is a str-valued DNA object that `custom_decode` maps back to an
+equal value (needed only for the soundness of encoding arbitrary values). -/
+def HooksEncSound : Prop :=
+  ∀ cid v d, W.enc cid v = some d →
+    nfD d = true ∧ (∃ s, d.value = some (.str s)) ∧ ∃ v', W.dec cid d = some v' ∧ eqvT v' v = true
 
 /-! ### Distinguishable candidates -/
 
@@ -147,6 +193,7 @@ mutual
       (W tag = true → ∀ (i j : Nat) ci cj, j < i → cands[i]? = some ci → cands[j]? = some cj →
         ∀ d v, decode W ci d = .ok v → ∀ d', encode W cj v ≠ .ok d')
     | .floatv _ _ _ => True
+    | .custom _ _ => True
   def DistL : List Tmpl → Prop
     | [] => True
     | t :: ts => DistT t ∧ DistL ts
@@ -160,6 +207,7 @@ inductive Head where
   | node (l : Label) (n : Nat)
   | float (lo hi : Num)
   | inactive (tag : Nat)
+  | any                       -- unknown (value of a custom hyper primitive)
   deriving DecidableEq, Repr
 
 def Atom.num? : Atom → Option Num
@@ -175,6 +223,7 @@ mutual
     | .choice tag one k cands _ _ =>
       if W tag then (if one then headsL cands else [.node .list k]) else [.inactive tag]
     | .floatv tag lo hi => if W tag then [.float lo hi] else [.inactive tag]
+    | .custom tag _ => if W tag then [.any] else [.inactive tag]
   def headsL : List Tmpl → List Head
     | [] => []
     | c :: cs => heads c ++ headsL cs
@@ -189,25 +238,32 @@ mutual
       | .float lo hi => match a.num? with
         | some x => Num.le lo x && Num.le x hi
         | none => false
+      | .any => true
       | _ => false
     | .node l kids, h =>
       match h with
       | .node l' n => decide (l = l') && decide (kids.length = n)
+      | .any => true
       | _ => false
     | .choice tag one k cands _ _, h =>
       if W tag then
         if one then matchHeadL cands h
         else match h with
           | .node .list n => decide (n = k)
+          | .any => true
           | _ => false
-      else decide (h = .inactive tag)
+      else decide (h = .inactive tag) || decide (h = .any)
     | .floatv tag lo hi, h =>
       if W tag then
         match h with
         | .atom (.flt x) => Num.le lo x && Num.le x hi
         | .float lo' hi' => Num.le lo hi' && Num.le lo' hi
+        | .any => true
         | _ => false
-      else decide (h = .inactive tag)
+      else decide (h = .inactive tag) || decide (h = .any)
+    | .custom tag _, h =>
+      -- a selected custom hyper may encode anything
+      if W tag then true else decide (h = .inactive tag) || decide (h = .any)
   def matchHeadL : List Tmpl → Head → Bool
     | [], _ => false
     | c :: cs, h => matchHead c h || matchHeadL cs h
@@ -227,6 +283,7 @@ mutual
     | .choice tag _ _ cands _ _ =>
       headDistinctL cands && (!W tag || candsApart (matchFns cands) (headLists cands))
     | .floatv _ _ _ => true
+    | .custom _ _ => true
   def headDistinctL : List Tmpl → Bool
     | [] => true
     | t :: ts => headDistinct t && headDistinctL ts
@@ -267,6 +324,7 @@ mutual
     | .node _ _ => false
     | .choice _ one _ cands _ _ => one && okBL b cands
     | .floatv _ lo hi => b.has lo && b.has hi
+    | .custom _ _ => false
   def okBL (b : Bound) : List Tmpl → Bool
     | [] => true
     | c :: cs => okB b c && okBL b cs
